@@ -903,7 +903,7 @@ def run(ctx):
                                                                 ("by_kernel", "guard_strings", "int_pairs", "date32_values")},
                                      "search": ctx.cov["search"]["input_distribution"]}
     return ctx.finish(
-        level="proof",
+        level="other",
         rule="PROOF part: guard strings (token soup of ( ) ' '' \" ` -- - newline, runs of 45..60 live parentheses with quoted / commented "
              "ones inside, unterminated quotes and comments) -> parse_sql fired the guard or not vs the model; integer operand pairs "
              "(16x16 edge grid per width incl. MIN, MAX, -1, 0, sqrt(MAX), plus random and near-boundary pairs) x {+,-,*,/,%,unary -,abs} "
